@@ -281,10 +281,27 @@ func (w *world) ledgerAck(c *xchain, pk *pkt, a Ack, out *txOutcome) {
 	if pk.feeAmt.Sign() > 0 {
 		fn := c.tokName(pk.feeTok)
 		e.add(fn, "packet", neg(pk.feeAmt))
+		// the fee goes to a local relayer whose registered address on the destination chain is the one
+		// recorded in the acknowledgement; when several qualify any of them is a legal recipient here
+		// (which one is a matter of determinism, judged by the replica comparison of C14)
 		rel := "?"
+		var cands []string
 		for _, r := range w.relayers {
-			if equalFoldAddr(a.Relayer, r.Acc.String()) {
-				rel = r.Label
+			if equalFoldAddr(a.Relayer, c.registry[r.Acc.String()][w.chains[pk.dst].Cfg.Name]) {
+				cands = append(cands, r.Label)
+			}
+		}
+		if len(cands) > 0 {
+			rel = cands[0]
+		}
+		if len(cands) > 1 {
+			w.rec.Probe("ack.fee_recipient_ambiguous")
+			nb := w.balances(c)
+			for _, l := range cands {
+				if c.lastBal != nil && nb[fn+"|"+l].Cmp(c.lastBal[fn+"|"+l]) > 0 {
+					rel = l
+					break
+				}
 			}
 		}
 		e.add(fn, rel, pk.feeAmt)
